@@ -74,18 +74,13 @@ const (
 	cprCloseRace
 	cprLostWakeBuffered
 	cprDetachedDelivery
-	cprTickerFlush
 	cprTwoClosers
-	cprCloseDuringPush
-	cprCallbackYield
-	cprPushAfterCloseLeft
 	cprLockBlocked
 	nCProbes
 )
 
 var cProbeNames = []string{"context_switch_at_internal_yield", "callback_reentered_reassembler", "close_invoked_while_other_call_in_flight",
-	"message_left_buffered_push_returned_after_close", "event_delivered_after_close_returned", "ticker_maintain_flushed", "two_or_more_close_calls",
-	"close_ran_between_put_and_cleanup", "switch_inside_callback", "message_never_delivered_allowed", "task_seen_blocked_on_lock"}
+	"message_left_buffered_push_returned_after_close", "event_delivered_after_close_returned", "two_or_more_close_calls", "task_seen_blocked_on_lock"}
 
 var cFaultNames = []string{"stalled_task", "clock_step", "reentrant_callback", "already_expired_timeout", "concurrent_close", "statement_level_preemption"}
 
@@ -121,7 +116,7 @@ func GenCPlan(r *core.Rng) *CPlan {
 	closers := 0
 	for t := 0; t < nt; t++ {
 		var ops []COp
-		n := r.Range(1, 4)
+		n := r.Range(1, core.Scale(4, false))
 		for i := 0; i < n; i++ {
 			switch r.Weighted(60, 12, 10, 8) {
 			case 0:
